@@ -113,6 +113,25 @@ pub fn build_layers_scaled<'a>(specs: &[LayerSpec], acts: &'a [Option<Activation
     out
 }
 
+/// as `build_layers`, every parameter of every layer initialised to the same constant (zero / constant initialisation:
+/// parameters of equal shape are then EQUAL arrays)
+pub fn build_layers_const<'a>(specs: &[LayerSpec], acts: &'a [Option<Activation>], c: f64, log: Option<&SnapLog>) -> Vec<Box<dyn Layer + 'a>> {
+    let mut out: Vec<Box<dyn Layer + 'a>> = vec![];
+    for (i, s) in specs.iter().enumerate() {
+        let init = stream_initializer(vec![c]);
+        let l: Box<dyn Layer + 'a> = match s {
+            LayerSpec::Dense { input, output, .. } => Box::new(Dense::new(*input, *output, &init, acts[i].as_ref())),
+            LayerSpec::Conv { count, depth, fr, fc, sr, sc, act } => Box::new(Conv::new((*count, *depth, *fr, *fc), (*sr, *sc), &init, make_act(*act))),
+            LayerSpec::Flatten => Box::new(Flatten),
+        };
+        out.push(match log {
+            Some(lg) => Box::new(Spy { inner: l, index: i, log: Rc::clone(lg) }),
+            None => l,
+        });
+    }
+    out
+}
+
 pub fn acts_for(specs: &[LayerSpec]) -> Vec<Option<Activation>> {
     specs
         .iter()
